@@ -1,1 +1,2 @@
-/-! Property theorems for C09 — placeholder until the property's model is built. -/
+import FcpptModel.Model.C09
+/-! Property theorems for C09 (being built). -/
